@@ -28,11 +28,14 @@ import tempfile
 from common import xr, xvec
 
 ID = "C09"
-TARGETS = ["Proofs.C09"]
+TARGETS = ["Proofs.C09", "Proofs.C09Clean"]
 GEN_PREFIXES = []
 THEOREMS = {
     "Proofs.C09": ["VerifModel.C09." + t for t in [
-        "C09_roundtrip", "C09_layout_irrelevant", "C09_rows_perm", "C09_classify", "C04_textclean"]],
+        "C09_roundtrip", "C09_layout_irrelevant", "C09_rows_perm", "C09_classify", "C04_textclean",
+        "C09_missing_tokens"]],
+    "Proofs.C09Clean": ["VerifModel.C09." + t for t in [
+        "C09_clean_agrees_with_netcdf", "C09_clean_is_C04_textClean"]],
 }
 TRUSTED_BASE = [
     "Lean 4.33 kernel; axioms propext, Classical.choice, Quot.sound only",
@@ -52,14 +55,18 @@ TRUSTED_BASE = [
 ]
 ASSUMPTIONS = [
     "well-formed file: one header line with at least one of obs/fcst/p*/q*, distinct column names, every data "
-    "row has one value per column, time / lead time / id cells are numbers other than -999, a lat / lon / "
-    "altitude cell is a number other than -999 or, when the location does not know that coordinate, a "
+    "row has one value per column, time / lead time / id cells are numbers that are none of the missing-value encodings "
+    "(not -999, not above 1e30: Spec.numOK), a lat / lon / "
+    "altitude cell is such a number or, when the location does not know that coordinate, a "
     "missing-value token on EVERY row of the location (a coordinate given on some rows and missing on others is "
     "not generated: the documentation does not say which wins), no two rows with "
     "the same (time, leadtime, location), one (lat,lon,elev) per id, id-less files identify a location by the "
     "(lat,lon,elev) columns present (an unknown coordinate counting as 0), distinct numeric values among the "
     "p/q/e headers",
-    "an unknown lat / lon / elevation (token -999 -999.0 NA na . nan NaN ...) reads as 0, the reader's default for "
+    "a data value is not -999, not above 1e30 and not +inf (Spec.valOK): such a value cannot be written to a text file "
+    "and read back, every token that spells it is a missing-value token (Text._clean since f945b9c, the same encodings "
+    "as verif.util.clean for NetCDF: C09_clean_agrees_with_netcdf); -inf and exactly 1e30 are values",
+    "an unknown lat / lon / elevation (token -999 -999.0 NA na . nan NaN inf 1e31 9.96921e+36 ...) reads as 0, the reader's default for "
     "an absent column (input.py `# Default values if columns not available`), never as another location's value; "
     "that it is 0 and not NaN as in the NetCDF reader is recorded under C10 (text-missing-lat-zero, ...)",
     "stream text.anonid (one location whose id token is missing, spelled -999 / NA / . but not nan): the table "
@@ -71,13 +78,16 @@ RULE = ("text.parse: random well-formed files, 1-4 times x 1-4 lead times x 1-4 
         "with p in {1,.8,.5}), any column order and subset, time as unixtime / date / date+hour (hours 0..47, the "
         "same instant spelled differently on different rows) / absent, leadtime / offset / absent, location / id / "
         "neither (lat,lon,elev keyed), altitude / elev / absent, obs fcst pit p<t> q<q> e<m> and other columns with "
-        "odd spellings (p-5 p+5 p.5 p5. p5e0 q0.25 e10 q p e pit x0), missing tokens -999 -999.0 NA na . nan NaN, "
-        "values on a 1/8 grid plus decimals and inf, tabs / multiple blanks / CRLF, comment and # variable/units/x0/x1 "
+        "odd spellings (p-5 p+5 p.5 p5. p5e0 q0.25 e10 q p e pit x0), missing tokens -999 -999.0 NA na . nan NaN inf "
+        "1e31 9.96921e+36, values on a 1/8 grid plus decimals, -inf (a value), and cells spelled inf / Inf / +inf / infinity / "
+        "1e+31 / 9.96921e+36 / 3.4028234663852886e+38 / 1.0000000000000002e+30 = nextafter(1e30) (all above 1e30: the table "
+        "oracle says MISSING, as for the same number in a NetCDF file), 1e+30 itself and -1e+31 (values), "
+        "tabs / multiple blanks / CRLF, comment and # variable/units/x0/x1 "
         "lines anywhere; in about a third of the files some locations do not know some of lat / lon / elevation "
         "(any missing token on each of their rows; in id-less files the visible tuples stay distinct); "
-        "text.locmiss: EXHAUSTIVE family of 1512 small files, {location, id, no id} x {altitude, elev} x {each "
+        "text.locmiss: EXHAUSTIVE family of 2016 small files, {location, id, no id} x {altitude, elev} x {each "
         "non-empty subset of lat/lon/elevation unknown} x {second, third, first, second+third of three locations} x "
-        "{each of the nine missing tokens}, rows A B C A B so that an unknown cell follows a row of another location "
+        "{each of the twelve missing tokens}, rows A B C A B so that an unknown cell follows a row of another location "
         "with a different non-zero value (A and B differ in the latitude only: filling from the previous row would "
         "merge them in an id-less file); text.anonid: random files with an id column in which one location has a "
         "missing id token; text.nanid: four files in which that id is spelled nan / NaN (oracles only, no "
@@ -86,15 +96,19 @@ RULE = ("text.parse: random well-formed files, 1-4 times x 1-4 lead times x 1-4 
         "an op is non-trivial if the file has >= 2 data rows and at least one field with a non-missing value")
 EXHAUSTIVE = {"quick": False, "thorough": False}
 EXHAUSTIVE_NOTE = ("seeded random; the space of files is unbounded. The sub-stream text.locmiss (unknown lat / lon / "
-                   "elevation of a location, 1512 files) is enumerated completely in both tiers")
+                   "elevation of a location, 2016 files) is enumerated completely in both tiers")
 LEVEL_TEXT = ("Lean theorems over a token-level model of Text.__init__: parsing the rendering of any well-formed "
               "table under any layout returns exactly the table (values at their own coordinates, NaN elsewhere, "
               "ascending duplicate-free times and lead times, location metadata per id - a lat / lon / elevation "
               "the table does not know, written as any missing-value token, reads as 0 exactly like an absent column, "
               "never as the value of another row -, numeric thresholds / "
               "quantiles / members, variable metadata); layouts and row orders are irrelevant; header words are "
-              "classified into exactly one class; _clean maps exactly bad / -999 / nan tokens to NaN. The model is "
-              "tied to /repo by differential correspondence on every attribute of the reader's result.")
+              "classified into exactly one class; _clean maps exactly the tokens bad / nan / -999 / inf / above 1e30 to "
+              "NaN (C04_textclean; these are the spec's missing-value tokens: C09_missing_tokens) and, on every token "
+              "that parses as a number, returns what verif.util.clean returns for that number in a NetCDF variable "
+              "(C09_clean_agrees_with_netcdf; the token-level cleaner is C04's textClean: C09_clean_is_C04_textClean). "
+              "A value that is -999, above 1e30 or +inf is not a table value (Spec.valOK): no text file carries it. "
+              "The model is tied to /repo by differential correspondence on every attribute of the reader's result.")
 TECHNIQUE = "Lean 4 proof over a hand-written model; seeded differential correspondence + table and metamorphic oracles"
 
 # ------------------------------------------------------------------ float() at the token-class level
@@ -191,11 +205,14 @@ def civil_from_days(z):
 
 
 # ------------------------------------------------------------------ generator: table + layout -> file
-MISSING = ["-999", "-999.0", "NA", ".", "nan", "NaN", "na", "-999.00", "-9.99e2"]
+# the tokens that stand for a missing value: not a number, nan, -999, and (since f945b9c, as in a NetCDF file) anything
+# above 1e30: inf and the usual NetCDF fill values
+MISSING = ["-999", "-999.0", "NA", ".", "nan", "NaN", "na", "-999.00", "-9.99e2", "inf", "1e31", "9.96921e+36"]
+BIG = 1e30            # the largest value a file can carry; above it = missing (Text._clean, verif.util.clean)
 # an id that is not known: the tokens Text._clean maps to the np.nan singleton.  A literal nan / NaN token in the id
 # column is float()'s own fresh NaN object, which Python's dict / set / tuple comparisons do not identify with itself
 # across rows; that spelling is outside the modelled domain (Model/TextInput.lean, header comment).
-ANON_TOKENS = ["-999", "-999.0", "NA", ".", "na", "-999.00", "-9.99e2"]
+ANON_TOKENS = ["-999", "-999.0", "NA", ".", "na", "-999.00", "-9.99e2", "inf", "1e31"]
 OTHER_NAMES = ["foo", "q", "p", "e", "x0", "pitx", "elevation", "eabc", "qq", "p5x", "T2m", "obs2", "fcst_raw",
                "ensmean", "lead", "time", "pp", "e1a"]
 VAR_NAMES = [["Weird", "variable"], ["T"], ["Precip", "24h"], ["RH"], ["Wind", "speed", "10m"], []]
@@ -233,8 +250,17 @@ def draw_value(rng):
     if r < 0.93:
         return rng.choice([0.1, 0.2, 12.34, -3.7, 1e5, 2.5e-3, 999.0, -99.0, 998.9, 0.3333])
     if r < 0.95:
-        return rng.choice([float("inf"), float("-inf")])
+        # -inf is a value; +inf and every number above 1e30 (NetCDF fill values) are missing-value encodings, exactly
+        # 1e30 is still a value (the oracle `expected` reads the table that way: cell_value)
+        return rng.choice([float("inf"), float("-inf"), float("-inf"), 1e31, 9.96921e+36, 1e30, 1.0000000000000002e+30,
+                           -1e31, 3.4028234663852886e+38])
     return rng.choice([0.0, 1.0, -1.0])
+
+
+def cell_value(v):
+    """what a cell of the generating table means: None = missing; a number above 1e30 (incl. +inf) cannot be carried by
+    a text file (nor by a NetCDF file): each of its spellings is a missing-value token (format description + f945b9c)"""
+    return float("nan") if (v is None or v > BIG) else v
 
 
 def build(genseed, relayout=None, anon=False):
@@ -618,7 +644,7 @@ def expected(T):
             for l in leads:
                 for s in used:
                     v = cells.get((t, l, id(s)))
-                    out.append(nan if v is None or v[k] is None else v[k])
+                    out.append(nan if v is None else cell_value(v[k]))
         return out
 
     def arr4(ks):
@@ -628,7 +654,7 @@ def expected(T):
                 for s in used:
                     v = cells.get((t, l, id(s)))
                     for k in ks:
-                        out.append(nan if v is None or v[k] is None else v[k])
+                        out.append(nan if v is None else cell_value(v[k]))
         return out
     F = T["fields"]
     d = {"T": xvec(times), "L": xvec(leads), "IDS": xvec(ids),
@@ -919,7 +945,7 @@ def float_or_nan(w):
         f = float(w)
     except ValueError:
         return True
-    return f == -999 or math.isnan(f)
+    return f == -999 or math.isnan(f) or f > BIG
 
 
 def extra_evidence(rows):
